@@ -898,22 +898,32 @@ impl PreExp {
             Self::BinaryOperation(_, _, _) | Self::UnaryOperation(_, _)
         )
     }
-    fn to_string_with_precedence(&self, previous_precedence: u8) -> String {
+    /// Renders the expression as the left or right operand of `parent`, with the
+    /// parentheses that are needed for the text to parse back to the same tree:
+    /// around an operand that binds less tightly and around an operand of equal
+    /// precedence on the side where `parent` does not associate
+    /// (`a - (b - c)`, `a / (b * c)`, `(a implies b) implies c`).
+    fn to_string_as_operand(&self, parent: BinOp, is_right: bool) -> String {
         match self {
-            Self::BinaryOperation(op, lhs, rhs) => {
-                //TODO add implied multiplication like 2x 2(x + y) etc...
-                /*
-                   implicit_mul = {
-                       (number | parenthesis){2,} ~ variable? |
-                       (number | parenthesis) ~ variable
-                   }
-                */
-                let lhs_str = lhs.to_string_with_precedence(op.precedence());
-                let rhs_str = rhs.to_string_with_precedence(op.precedence());
-                if op.precedence() < previous_precedence {
-                    format!("({} {} {})", lhs_str, **op, rhs_str)
+            Self::BinaryOperation(op, _, _) => {
+                let precedence = op.precedence();
+                let parent_precedence = parent.precedence();
+                let needs_parentheses = if precedence != parent_precedence {
+                    precedence < parent_precedence
+                } else if is_right {
+                    //only a chain of the same associative operator may drop them
+                    !(**op == parent
+                        && matches!(
+                            parent,
+                            BinOp::Add | BinOp::Mul | BinOp::And | BinOp::Or | BinOp::Xor
+                        ))
                 } else {
-                    format!("{} {} {}", lhs_str, **op, rhs_str)
+                    !parent.is_left_associative() || !op.is_left_associative()
+                };
+                if needs_parentheses {
+                    format!("({})", self)
+                } else {
+                    self.to_string()
                 }
             }
             _ => self.to_string(),
@@ -979,8 +989,8 @@ impl fmt::Display for PreExp {
             Self::BlockFunction(f) => f.to_string(),
             Self::BlockScopedFunction(f) => f.to_string(),
             Self::BinaryOperation(op, lhs, rhs) => {
-                let rhs = rhs.to_string_with_precedence(op.precedence());
-                let lhs = lhs.to_string_with_precedence(op.precedence());
+                let rhs = rhs.to_string_as_operand(**op, true);
+                let lhs = lhs.to_string_as_operand(**op, false);
                 format!("{} {} {}", lhs, **op, rhs)
             }
             Self::CompoundVariable(c) => c.to_string(),
